@@ -4296,10 +4296,18 @@ impl ZonedRound {
         let start = zdt.start_of_day().with_context(move || {
             err!("failed to find start of day for {zdt}")
         })?;
+        // N.B. The end of this day is the start of the next day, which isn't
+        // necessarily one day after the start of this one. For example, when
+        // midnight falls in a gap, this day starts at 01:00 but the next one
+        // (usually) starts at 00:00.
         let end = start
             .checked_add(Span::new().days_ranged(C(1).rinto()))
             .with_context(|| {
                 err!("failed to add 1 day to {start} to find length of day")
+            })?
+            .start_of_day()
+            .with_context(|| {
+                err!("failed to find start of day after {start}")
             })?;
         let span = start
             .timestamp()
